@@ -209,9 +209,14 @@ type rMarshaler struct{ js string }
 
 func (m rMarshaler) MarshalJSON() ([]byte, error) { return []byte(m.js), nil }
 
-type rBadMarshaler struct{}
+type rBadMarshaler struct{ msg string }
 
-func (rBadMarshaler) MarshalJSON() ([]byte, error) { return nil, errors.New("boom \"quoted\"\nline") }
+func (m rBadMarshaler) MarshalJSON() ([]byte, error) {
+	if m.msg == "" {
+		return nil, errors.New("boom \"quoted\"\nline")
+	}
+	return nil, errors.New(m.msg)
+}
 
 type rNaN struct{ X float64 }
 
@@ -586,6 +591,9 @@ func (g *fgen) reflectValue() any {
 		return rNaN{X: math.NaN()}
 	case 8:
 		g.f("reflect-error")
+		if r.IntN(2) == 0 {
+			return rBadMarshaler{msg: "bell\a vtab\v ctl\x01 hi\x80\xff del\x7f " + g.str()}
+		}
 		return rBadMarshaler{}
 	case 9:
 		g.f("reflect-error")
